@@ -25,5 +25,7 @@ EXPECTED_MIN_OBLIGATIONS = {}
 # q -> properties whose statement contains q's: every obligation that decides q is also run and reported for them.
 #   C03 (no future is lost) is the liveness half of C01 (every non-cancelled future resolves with its own outcome): a lost future is a
 #   submission whose outcome is never delivered.
-PROP_IMPLIES = {"C03": ["C01"]}
+#   C13 (map / flat_map laws) is the per-layer half of C01 for the map and flat_map layers: `the value or exception that a sequential
+#   evaluation of the same layers gives` is, layer by layer, what C13 says the layer computes.
+PROP_IMPLIES = {"C03": ["C01"], "C13": ["C01"]}
 PROPERTY_ASSUMPTIONS = {}
